@@ -1,7 +1,7 @@
 import sys
 
 from typing import Any, Callable, Mapping, Union, NamedTuple, List, Tuple
-from importlib import import_module
+from importlib import import_module, invalidate_caches
 from datetime import date, datetime
 from pathlib import Path
 from unittest.mock import patch
@@ -198,6 +198,8 @@ def resolve_plugins(
 ):
     "Resolve a list of plugins and lineinfos"
     with plugin_path(search_paths):
+        # a plugins directory or file created since an earlier (failed) lookup must be seen
+        invalidate_caches()
         plugins = []
         for plugin_spec in plugin_specs:
             plugins.extend(resolve_plugin(*plugin_spec))  # type: ignore
